@@ -28,8 +28,8 @@ Inductive event :=
 | EvCleanup (owner : nat) (c : cid) (r : nat) (* cleanup installed by start request [owner] was called; r: 0 exc, 1 start, 2 stop *)
 | EvInt (r : nat)                         (* _cleanup entered with this reason (logged): 0 exc, 1 start, 2 stop *)
 | EvTrans (active : bool) (f : option sid) (* transition hook called with the new state; active: a state was set before *)
-| EvPickup (tid : nat) (cl : bool)
-| EvFinal (c : Z).                         (* final_status(c) was called by the state function just called *)       (* deferred task taken; cl: it installs a cleanup function (not observable on the implementation) *)
+| EvPickup (tid : nat) (cl : bool)         (* deferred task taken; cl: it installs a cleanup function (not observable on the implementation) *)
+| EvFinal (c : Z).                         (* final_status(c) was called by the state function just called *)
 
 Definition reason_code (r : reason) : nat :=
   match r with RExc => 0 | RTask (TStart _ _ _ _) => 1 | RTask (TStop _) => 2 end.
@@ -43,6 +43,7 @@ Record world := {
   w_s : nat -> sbeh;
   w_c : nat -> cbeh;
   w_env : nat -> option task;
+  w_guard : nat -> bool;     (* the stop request of hook n is issued as "if sm.is_active: sm.stop()" (HasStates.stop_machine) *)
 }.
 
 Record sm := {
@@ -78,13 +79,25 @@ Definition emit s e := {| statefunc := statefunc s; next_task := next_task s; cl
 (* start()/stop(): only post a task *)
 Definition post (s : sm) (t : task) : sm := set_next_task s (Some t).
 
-(* one hook: the environment may post a task; the hook counter advances *)
+Definition active (s : sm) : bool := match statefunc s with Some _ => true | None => false end.
+
+(* a stop request which is only issued while the machine is active (stop_machine of the HasStates layer) *)
+Definition suppressed (W : world) (n : nat) (t : task) (s : sm) : bool :=
+  match t with TStop _ => w_guard W n && negb (active s) | TStart _ _ _ _ => false end.
+
+(* one hook: the environment may post a task; the hook counter advances.  Hooks are the points at which foreign
+   code can run during a cycle: time.time(), the bodies of state and cleanup functions, the transition callback and
+   every acquisition of StateMachine._lock by the cycling thread (a second thread may run start()/stop() to the end
+   before the lock is obtained). *)
 Definition hook (W : world) (s : sm) : sm :=
   let n := ctr s in
   let s1 := {| statefunc := statefunc s; next_task := next_task s; cleanup := cleanup s;
                cleanup_reason := cleanup_reason s; init := init s; attrs := attrs s;
                ctr := S n; trace := trace s |} in
-  match w_env W n with Some t => post s1 t | None => s1 end.
+  match w_env W n with
+  | Some t => if suppressed W n t s then s1 else post s1 t
+  | None => s1
+  end.
 
 Fixpoint upd (k : nat) (v : Z) (l : list (nat * Z)) : list (nat * Z) :=
   match l with
@@ -108,7 +121,8 @@ Definition do_cleanup (W : world) (s : sm) (r : reason) : sm * option sid :=
   match cleanup s1 with
   | None => (s1, None)
   | Some (owner, c) =>
-      let s2 := set_cleanup s1 None in
+      let s1l := hook W s1 in                  (* with self._lock: (the swap reads self.cleanup again: unchanged by a hook) *)
+      let s2 := set_cleanup s1l None in
       let rc := match cleanup_reason s2 with Some r' => reason_code r' | None => 0 end in
       let s3 := emit s2 (EvCleanup owner c rc) in
       let n := ctr s3 in
@@ -161,8 +175,9 @@ Fixpoint inner (W : world) (k : nat) (s : sm) : sm * iret :=
             end
   end.
 
-(* if self.next_task: take it under the lock; cleanup_reason = None; Start -> _new_state, _update_attributes *)
-Definition pickup (W : world) (s : sm) : sm :=
+(* the statements inside and after `with self._lock:` of the pick-up: action, self.next_task = self.next_task, None;
+   cleanup_reason = None; Start -> _new_state, _update_attributes *)
+Definition pickup_locked (W : world) (s : sm) : sm :=
   match next_task s with
   | None => s
   | Some t =>
@@ -175,6 +190,14 @@ Definition pickup (W : world) (s : sm) : sm :=
           set_attrs (set_cleanup s3 (match cl with Some c => Some (i, c) | None => None end))
                     (upd_all kw (attrs s3))
       end
+  end.
+
+(* if self.next_task: [acquisition of the lock = a hook] read and clear under the lock.  The test and the read are
+   two different reads of next_task: what is taken is the request pending when the lock is held *)
+Definition pickup (W : world) (s : sm) : sm :=
+  match next_task s with
+  | None => s
+  | Some _ => pickup_locked W (hook W s)
   end.
 
 (* one round of the outer loop, for _ in range(2): None = return from cycle, Some s = next round *)
